@@ -151,34 +151,41 @@ def kd_owner(rec, rev, ks, pw):
     return h[:ks]
 
 
+def crypt_filter_of(d, name):
+    if name is None or name == b"Identity":
+        return None, M_NONE
+    f = None
+    for (n, m, l) in d["cf"]:
+        if n == name:
+            f = (m, l)
+            break
+    if f is None:
+        raise MErr(9)
+    bits = 40 if d["bits"] is None else d["bits"]
+    if f[1] is not None:
+        if 8 * f[1] >= 1 << 32:
+            raise MErr(9)
+        bits = 8 * f[1]
+    if f[0] in (M_V2, M_AESV2):
+        return bits, f[0]
+    if f[0] == M_AESV3 and d["V"] == 5:
+        return bits, M_AESV3
+    raise MErr(9)
+
+
 def crypt_method(d):
     v = d["V"]
     bits = 40 if d["bits"] is None else d["bits"]
     if v == 1:
-        return 40, M_V2
+        return 40, M_V2, M_V2
     if v == 2:
         if bits % 8:
             raise MErr(9)
-        return bits, M_V2
+        return bits, M_V2, M_V2
     if 4 <= v <= 6:
-        if d["stmf"] is None:
-            raise MErr(9)
-        f = None
-        for (n, m, l) in d["cf"]:
-            if n == d["stmf"]:
-                f = (m, l)
-                break
-        if f is None:
-            raise MErr(9)
-        if f[1] is not None:
-            if 8 * f[1] >= 1 << 32:
-                raise MErr(9)
-            bits = 8 * f[1]
-        if f[0] in (M_V2, M_AESV2):
-            return bits, f[0]
-        if f[0] == M_AESV3 and v == 5:
-            return bits, M_AESV3
-        raise MErr(9)
+        a = crypt_filter_of(d, d["stmf"])
+        b = crypt_filter_of(d, d.get("strf"))
+        return (a[0] if a[0] is not None else b[0] if b[0] is not None else bits), a[1], b[1]
     raise MErr(9)
 
 
@@ -198,7 +205,7 @@ def kdf(rec, fuel, pw, salt, u):
 
 
 def from_password(rec, d, id0, pw, fuel=200):
-    bits, m = crypt_method(d)
+    bits, m, ms = crypt_method(d)
     level = d["R"]
     em = True if d["em"] is None else d["em"]
     em_eff = em or d["V"] < 4
@@ -210,14 +217,14 @@ def from_password(rec, d, id0, pw, fuel=200):
             raise MErr(9)
         key = kd_user(rec, level, ks, d, id0, pw)
         if check_password(rec, level, d["U"], id0, key[:min(ks, 16)]):
-            return dict(size=ks, key=key, method=m, em=em_eff, enc=None, meta=None)
+            return dict(size=ks, key=key, method=m, smethod=ms, em=em_eff, enc=None, meta=None)
         wrap = kd_owner(rec, level, ks, pw)
         upw = d["O"]
         for r in range(1 if level == 2 else 20):
             upw = rc4(xor_key(wrap, r), upw)
         key = kd_user(rec, level, ks, d, id0, upw)
         if check_password(rec, level, d["U"], id0, key[:ks]):
-            return dict(size=ks, key=key, method=m, em=em_eff, enc=None, meta=None)
+            return dict(size=ks, key=key, method=m, smethod=ms, em=em_eff, enc=None, meta=None)
         raise MErr(1)
     u, o = d["U"], d["O"]
     if len(u) != 48 or len(o) != 48:
@@ -238,7 +245,9 @@ def from_password(rec, d, id0, pw, fuel=200):
     if len(wrapped) % 16:
         raise MErr(1)
     key = rec.dec(ik, bytes(16), wrapped)
-    return dict(size=32, key=key, method=m, em=em_eff, enc=None, meta=None)
+    if len(key) != 32:
+        raise MErr(9)
+    return dict(size=32, key=key, method=m, smethod=ms, em=em_eff, enc=None, meta=None)
 
 
 def dkey(dc):
@@ -258,16 +267,16 @@ def aes_unpad(rec, keylen, key, iv, ct):
     return r
 
 
-def decrypt(rec, dc, num, gen, data):
+def decrypt(rec, dc, num, gen, data, string=False):
     if dc["enc"] == (num, gen):
         return data
     if not dc["em"] and dc["meta"] == (num, gen):
         return data
     if not data:
         return data
-    m = dc["method"]
+    m = dc.get("smethod", dc["method"]) if string else dc["method"]
     if m == M_NONE:
-        raise MPanic(604)
+        return data
     tail = (num & 0xFFFFFF).to_bytes(3, "little") + (gen & 0xFFFF).to_bytes(2, "little")
     if m == M_V2:
         k = dkey(dc)
@@ -285,9 +294,9 @@ def decrypt(rec, dc, num, gen, data):
     return aes_unpad(rec, 32, dc["key"], data[:16], data[16:])
 
 
-def try_decrypt(rec, dc, num, gen, data):
+def try_decrypt(rec, dc, num, gen, data, string=False):
     """the model may query the oracles even when it ends in an error; never raises"""
     try:
-        return decrypt(rec, dc, num, gen, data)
+        return decrypt(rec, dc, num, gen, data, string)
     except (MErr, MPanic, ValueError):
         return None
